@@ -700,6 +700,9 @@ func (self *Parser) ExportError(err types.ParsingError) error {
 	if err == _ERR_NOT_FOUND {
 		return ErrNotExist
 	}
+	if self.p > len(self.s) {
+		self.p = len(self.s)
+	}
 	return fmt.Errorf("%q", SyntaxError{
 		Pos:  self.p,
 		Src:  self.s,
